@@ -93,7 +93,7 @@ func init() {
 	}
 	m["strings.Fields"] = func(ex *Exec, fr *frame, a []Value) Value {
 		s := a[0].(*Str)
-		ex.requireASCII(fr, s)
+		ex.requireNoUnicodeSpace(fr, s)
 		var fields []Value
 		start := -1
 		for i, b := range s.B {
@@ -113,7 +113,7 @@ func init() {
 	}
 	m["strings.TrimSpace"] = func(ex *Exec, fr *frame, a []Value) Value {
 		s := a[0].(*Str)
-		ex.requireASCII(fr, s)
+		ex.requireNoUnicodeSpace(fr, s)
 		return ex.trimFunc(s, func(b *Term) *Term { return ex.isSpace(b) }, true, true)
 	}
 	trim := func(l, r bool) modelFn {
@@ -257,6 +257,26 @@ func (ex *Exec) requireASCII(fr *frame, s *Str) {
 		}
 		if !ex.X.Branch(ex.B.Bin(OUlt, b, ex.B.Const(8, 0x80))) {
 			ex.abort("unsupported", "non-ASCII byte reaches a Unicode-aware strings function at "+ex.where(fr))
+		}
+	}
+}
+
+// requireNoUnicodeSpace: for the white-space functions a byte >= 0x80 matters only
+// as part of a multi-byte space (U+0085, U+00A0, U+1680, U+2000-200A, U+2028/9,
+// U+202F, U+205F, U+3000), whose encodings all begin with C2, E1, E2 or E3. Without
+// such a lead byte every non-ASCII byte (valid or not) is a non-space, exactly as
+// the standard library treats it; with one the path is refused as unsupported.
+func (ex *Exec) requireNoUnicodeSpace(fr *frame, s *Str) {
+	for _, b := range s.B {
+		if b.Op == OConst {
+			if b.Val == 0xC2 || b.Val == 0xE1 || b.Val == 0xE2 || b.Val == 0xE3 {
+				ex.abort("unsupported", "possible multi-byte Unicode space reaches a white-space function at "+ex.where(fr))
+			}
+			continue
+		}
+		lead := ex.B.Or(ex.B.Eq(b, ex.B.Const(8, 0xC2)), ex.B.Eq(b, ex.B.Const(8, 0xE1)), ex.B.Eq(b, ex.B.Const(8, 0xE2)), ex.B.Eq(b, ex.B.Const(8, 0xE3)))
+		if ex.X.Branch(lead) {
+			ex.abort("unsupported", "possible multi-byte Unicode space reaches a white-space function at "+ex.where(fr))
 		}
 	}
 }
